@@ -4,6 +4,7 @@
 use serde_json::{json, Value};
 
 mod ops_auth;
+mod ops_auth_helpers;
 mod ops_enums;
 mod ops_events;
 mod ops_html;
@@ -11,6 +12,7 @@ mod ops_ids;
 mod ops_json;
 mod ops_push;
 mod ops_stateres;
+mod pev;
 mod proto;
 
 pub use proto::{b, opt_s, s, u, OpResult};
